@@ -33,16 +33,17 @@ class UtilsStub:
         return "<graph>"
 
 
-NLMUL = z3.Function("times", REAL, REAL, REAL)
+NLMUL = core.TIMES
 
 
 def mul(a, b):
     """the product of two column values.  In the quantified (unbounded) harnesses multiplication of two non-constant terms is the
-    uninterpreted symbol `times` with the two facts used (0*b = 0, 1*b = b): everything proved for an arbitrary such function holds for
+    uninterpreted symbol `times` with the facts used (0*b = b*0 = 0, 1*b = b*1 = b): everything proved for an arbitrary such function holds for
     real multiplication, and the solver is spared nonlinear integer reasoning (which made verdicts flip under load).  Concrete instances
     use real multiplication, so their counterexamples are genuine."""
     c = core.ctx()
     if getattr(c, "mul_abstract", False):
+        a, b = (z3.ToReal(a) if a.sort() == INT else a), (z3.ToReal(b) if b.sort() == INT else b)
         return NLMUL(a, b)
     return a * b
 
@@ -50,7 +51,7 @@ def mul(a, b):
 def abstract_mul(c):
     c.mul_abstract = True
     b = z3.Real("mb")
-    c.assume(z3.ForAll([b], z3.And(NLMUL(0, b) == 0, NLMUL(1, b) == b)))
+    c.assume(z3.ForAll([b], z3.And(NLMUL(0, b) == 0, NLMUL(1, b) == b, NLMUL(b, 0) == 0, NLMUL(b, 1) == b)))
 
 
 class Member:
@@ -166,9 +167,30 @@ class Solver(Tracked):
             raise Unsupported("add_variables: index arity")
         c = core.ctx()
         qs = [z3.Int(c.name("av%d" % a)) for a in range(arity)]
-        lo, hi = lift(lb), lift(ub)
+        if isinstance(ub, LazyMap) and isinstance(ub.seq, LazyProduct) and ub.flt is None and getattr(indexes, "source", None) is ub.seq:
+            # ub = [g(key) for key in <the same index list>]: a per-index bound, read off at the bound index
+            with c.quantified(indexes.pred(*qs)):
+                hi = lift(ub.fn(tuple(Sym(q) for q in qs)))
+            lo = lift(lb)
+        elif isinstance(ub, list) and indexes.members is not None and len(ub) == len(indexes.members):
+            lo = lift(lb)
+            hi = None                                   # concrete instance with a per-index list: handled below
+        else:
+            lo, hi = lift(lb), lift(ub)
         lo = z3.ToReal(lo) if lo.sort() == INT else lo
-        hi = z3.ToReal(hi) if hi.sort() == INT else hi
+        if hi is not None:
+            hi = z3.ToReal(hi) if hi.sort() == INT else hi
+        if hi is None:
+            parts = []
+            for mbr, ubv in zip(indexes.members, ub):
+                t = fn(*[z3.IntVal(x) for x in (mbr if isinstance(mbr, tuple) else (mbr,))])
+                uv = lift(ubv)
+                uv = z3.ToReal(uv) if uv.sort() == INT else uv
+                parts.append(z3.And(lo <= t, t <= uv, *([z3.IsInt(t)] if var_type == "integer" else [])))
+            fact = z3.And(*parts) if parts else z3.BoolVal(True)
+            self.store.add(fact)
+            self.created[name_prefix] = dict(indexes=indexes, lb=lo, ub=None, var_type=var_type, fact=fact)
+            return VarMap(name_prefix, fn, indexes.pred, arity)
         body = z3.And(lo <= fn(*qs), fn(*qs) <= hi)
         if var_type == "integer":
             body = z3.And(body, z3.IsInt(fn(*qs)))
@@ -502,7 +524,7 @@ def dag_units():
         out.append(edge_encoder("flowpaths/kminpatherror.py", "kMinPathError._encode_minpatherror_decomposition", "C08", wt,
                                 fams=[("weights", W, 1, "path", "wt"), ("pi", PI, 3, "edge", "wt"), ("slack", SLACK, 1, "path", "wt"), ("gamma", GAMMA, 3, "edge", "continuous")],
                                 products=[prod_pi, prod_gamma], summed={"pi_var": (PI, "sum_pi"), "gamma_var": (GAMMA, "sum_gamma")},
-                                edge_rows=lambda u, v, S, fl: z3.And((fl - S["pi_var"]) * SCALE(u, v) <= S["gamma_var"], (fl - S["pi_var"]) * SCALE(u, v) >= -S["gamma_var"]), outer=2,
+                                edge_rows=lambda u, v, S, fl: z3.And(lift(Sym(fl - S["pi_var"]) * Sym(SCALE(u, v)) <= Sym(S["gamma_var"])), lift(Sym(fl - S["pi_var"]) * Sym(SCALE(u, v)) >= -Sym(S["gamma_var"]))), outer=2,
                                 what="pi = x*w, gamma(u,v,i) = x(u,v,i)*slack(i) and |flow(u,v) - sum_i pi(u,v,i)| * scale(u,v) <= sum_i gamma(u,v,i)  (the slacks of the paths through the edge pay for its error)"))
     return out
 
@@ -523,7 +545,7 @@ def cyc_units():
         out.append(edge_encoder("flowpaths/kminpatherrorcycles.py", "kMinPathErrorCycles._encode_minpatherror_decomposition", "C08", wt, cyc=True,
                                 fams=[("weights", W, 1, "path", "wt"), ("pi", PI, 3, "edge", "wt"), ("slack", SLACK, 1, "path", "wt"), ("gamma", GAMMA, 3, "edge", "continuous")],
                                 products=[prod_pi, prod_gamma], summed={"pi_var": (PI, "sum_pi"), "gamma_var": (GAMMA, "sum_gamma")},
-                                edge_rows=lambda u, v, S, fl: z3.And((fl - S["pi_var"]) * SCALE(u, v) <= S["gamma_var"], (fl - S["pi_var"]) * SCALE(u, v) >= -S["gamma_var"]),
+                                edge_rows=lambda u, v, S, fl: z3.And(lift(Sym(fl - S["pi_var"]) * Sym(SCALE(u, v)) <= Sym(S["gamma_var"])), lift(Sym(fl - S["pi_var"]) * Sym(SCALE(u, v)) >= -Sym(S["gamma_var"]))),
                                 what="pi = multiplicity*w, gamma(u,v,i) = multiplicity(u,v,i)*slack(i) and |flow(u,v) - sum_i pi(u,v,i)| * scale(u,v) <= sum_i gamma(u,v,i)"))
     return out
 
@@ -747,7 +769,7 @@ def u_encode_paths(allow_empty):
         return z3.And(v != st["src"], v != st["snk"])
 
     def cov_row(i, j):
-        return st["CS"](j, i, CL(j)) >= z3.ToReal(CL(j)) * st["cov"] * R(i, j)
+        return lift(Sym(st["CS"](j, i, CL(j))) >= Sym(CL(j)) * Sym(st["cov"]) * Sym(R(i, j)))
 
     def resp_row(j):
         return st["RS"](j, st["k"]) >= 1
@@ -787,6 +809,7 @@ def u_encode_paths(allow_empty):
         return {"rows-so-far=some-layer-is-responsible-for-every-constraint-seen": eqv(ns, "H_l5", z3.ForAll([j_], z3.Implies(rng(j_, done), resp_row(j_))))}
 
     def h(c, f):
+        abstract_mul(c)
         g = Graph(c)
         k, nn, m = c.fresh_const("k", INT), c.fresh_const("n_nodes", INT), c.fresh_const("n_constraints", INT)
         cov = c.fresh_const("coverage", REAL)
@@ -1089,10 +1112,10 @@ def u_subset_constraints():
     rng = lambda q, hi: z3.And(q >= 0, q < lift(hi))
 
     def used_row(a, b, i):
-        return z3.And(Z(a, b, i) <= X(a, b, i), X(a, b, i) <= UB(a, b) * Z(a, b, i))
+        return z3.And(Z(a, b, i) <= X(a, b, i), lift(Sym(X(a, b, i)) <= Sym(UB(a, b)) * Sym(Z(a, b, i))))
 
     def cov_row(i, j):
-        return st["DS"](j, i, DL(j)) >= z3.ToReal(DL(j)) * st["cov"] * R(i, j)
+        return lift(Sym(st["DS"](j, i, DL(j))) >= Sym(DL(j)) * Sym(st["cov"]) * Sym(R(i, j)))
 
     def resp_row(j):
         return st["RS"](j, st["k"]) >= 1
@@ -1128,6 +1151,7 @@ def u_subset_constraints():
         pass
 
     def h(c, f):
+        abstract_mul(c)
         g = Graph(c)
         k, m = c.fresh_const("k", INT), c.fresh_const("n_constraints", INT)
         cov = c.fresh_const("coverage", REAL)
@@ -1520,6 +1544,267 @@ def u_symmetry_breaking():
                 loops={0: dict(inv=inv, prop=P, modifies=[(("self", "solver", "store", "holds"), fresh)], keep=("i",))}, callee_contracts=[A1C], assumptions=[A3])
 
 
+# =====================================================================================================================
+# AbstractWalkModelDiGraph._encode_walks (C01 / C14, cyclic models): the rows of the walk formulation (arXiv 2209.00042)
+
+def u_encode_walks(allow_empty):
+    P = "C01,C14"
+    Y = z3.Function("selected_edge_var", INT, INT, INT, REAL)
+    D = z3.Function("distance_var", INT, INT, REAL)
+    UB = z3.Function("edge_upper_bound", INT, INT, REAL)
+    NODE, NIDX = z3.Function("node_at", INT, INT), z3.Function("node_index", INT, INT)
+    INDEG, OUTDEG = z3.Function("in_degree", INT, INT), z3.Function("out_degree", INT, INT)
+    PRED, SUCC = z3.Function("pred_of", INT, INT, INT), z3.Function("succ_of", INT, INT, INT)
+    st = {}
+    i_, j_, a_, b_ = z3.Ints("qi qj qa qb")
+    rng = lambda q, hi: z3.And(q >= 0, q < lift(hi))
+    S_ = lambda t: Sym(t)
+
+    def isnode(v):
+        return z3.And(NIDX(v) >= 0, NIDX(v) < st["nn"], NODE(NIDX(v)) == v)
+
+    def OUT(v, i): return st["OUT"](v, i, OUTDEG(v))
+    def IN(v, i): return st["IN"](v, i, INDEG(v))
+    def INY(v, i): return st["INY"](v, i, INDEG(v))
+    def MV(v): return st["UBS"](v, INDEG(v))
+
+    def r17a(i):
+        return OUT(st["src"], i) <= 1 if allow_empty else OUT(st["src"], i) == 1
+
+    def r17b(v, i): return IN(v, i) - OUT(v, i) == 0
+    def r21(a, b, i): return lift(S_(X(a, b, i)) >= S_(Y(a, b, i)))
+    def r22(v, i): return z3.And(lift(S_(IN(v, i)) <= S_(MV(v)) * S_(INY(v, i))), lift(S_(INY(v, i)) <= 1))
+    def r18a(i): return D(st["src"], i) == 1
+    def r19c(a, b, i): return lift(S_(D(b, i)) >= S_(D(a, i)) + 1 - S_(st["nn"] + 1) * (1 - S_(Y(a, b, i))))
+
+    def eqv(ns, entry, body):
+        return lift(ns["self"].solver.store.holds) == z3.And(st[entry], body)
+
+    def snap(name, more=()):
+        def on_entry(ns, it=None):
+            st[name] = lift(ns["self"].solver.store.holds)
+            for a in more:
+                st["cur_" + a] = lift(ns[a])
+        return on_entry
+
+    def all_i(done, body): return z3.ForAll([i_], z3.Implies(rng(i_, done), body(i_)))
+    def nodes_upto(done, body): return z3.ForAll([j_], z3.Implies(rng(j_, done), body(NODE(j_))))
+    def edges_upto(done, body):
+        g = st["g"]
+        return z3.ForAll([j_], z3.Implies(rng(j_, done), body(g.EU(j_), g.EV(j_))))
+    inner = lambda v: z3.And(v != st["src"], v != st["snk"])
+    notsrc = lambda v: v != st["src"]
+    invs = {
+        0: lambda ns, seq, d: {"rows=one-unit-(at-most-one)-leaves-the-source-in-the-layers-seen": eqv(ns, "H0_", all_i(d, r17a))},
+        1: lambda ns, seq, d: {"rows=conservation-at-inner-nodes-in-the-layers-seen": eqv(ns, "H1_", all_i(d, lambda i: nodes_upto(st["nn"], lambda v: z3.Implies(inner(v), r17b(v, i)))))},
+        2: lambda ns, seq, d: {"rows=conservation-at-the-inner-nodes-seen": eqv(ns, "H2_", nodes_upto(d, lambda v: z3.Implies(inner(v), r17b(v, st["cur_i"]))))},
+        3: lambda ns, seq, d: {"rows=selected=>used-in-the-layers-seen": eqv(ns, "H3_", all_i(d, lambda i: edges_upto(st["g"].n, lambda a, b: r21(a, b, i))))},
+        4: lambda ns, seq, d: {"rows=selected=>used-on-the-edges-seen": eqv(ns, "H4_", edges_upto(d, lambda a, b: r21(a, b, st["cur_i"])))},
+        5: lambda ns, seq, d: {"rows=entered-nodes-have-exactly-one-selected-in-edge,-in-the-layers-seen": eqv(ns, "H5_", all_i(d, lambda i: nodes_upto(st["nn"], lambda v: z3.Implies(notsrc(v), r22(v, i)))))},
+        6: lambda ns, seq, d: {"rows=entered-nodes-have-exactly-one-selected-in-edge,-for-the-nodes-seen": eqv(ns, "H6_", nodes_upto(d, lambda v: z3.Implies(notsrc(v), r22(v, st["cur_i"]))))},
+        7: lambda ns, seq, d: {"rows=source-distance-is-1-in-the-layers-seen": eqv(ns, "H7_", all_i(d, r18a))},
+        8: lambda ns, seq, d: {"rows=distance-increases-along-selected-edges-in-the-layers-seen": eqv(ns, "H8_", all_i(d, lambda i: edges_upto(st["g"].n, lambda a, b: r19c(a, b, i))))},
+        9: lambda ns, seq, d: {"rows=distance-increases-along-the-selected-edges-seen": eqv(ns, "H9_", edges_upto(d, lambda a, b: r19c(a, b, st["cur_i"])))},
+    }
+
+    def h(c, f):
+        abstract_mul(c)
+        g = Graph(c)
+        k, nn = c.fresh_const("k", INT), c.fresh_const("n_nodes", INT)
+        c.assume(z3.And(k >= 1, nn >= 0))
+        src, snk = g.source.t, g.sink.t
+        st.update(g=g, k=k, nn=nn, src=src, snk=snk)
+        v, q = z3.Ints("hv hq")
+        c.assume(z3.ForAll([q], z3.Implies(z3.And(q >= 0, q < nn), NIDX(NODE(q)) == q)))
+        c.assume(z3.And(isnode(src), isnode(snk)))
+        c.assume(z3.ForAll([a_, b_], z3.Implies(g.EDGE(a_, b_), z3.And(isnode(a_), isnode(b_)))))
+        c.assume(z3.ForAll([v], z3.And(INDEG(v) >= 0, OUTDEG(v) >= 0)))
+        c.assume(z3.ForAll([v, q], z3.Implies(z3.And(q >= 0, q < INDEG(v)), g.EDGE(PRED(v, q), v))))
+        c.assume(z3.ForAll([v, q], z3.Implies(z3.And(q >= 0, q < OUTDEG(v)), g.EDGE(v, SUCC(v, q)))))
+        st["OUT"] = prefix_sum(c, "outflow", lambda a, i, t: X(a, SUCC(a, t), i), 2)
+        st["IN"] = prefix_sum(c, "inflow", lambda a, i, t: X(PRED(a, t), a, i), 2)
+        st["INY"] = prefix_sum(c, "selected_in_edges", lambda a, i, t: Y(PRED(a, t), a, i), 2)
+        st["UBS"] = prefix_sum(c, "sum_of_in_edge_upper_bounds", lambda a, t: UB(PRED(a, t), a), 1)
+        edge_pred = lambda a, b, i: z3.And(g.EDGE(a, b), i >= 0, i < k)
+        vert_pred = lambda vv, i: z3.And(isnode(vv), i >= 0, i < k)
+
+        class EdgeView(SymSeq):
+            def __call__(self, data=False): return g.edges(data)
+
+        class NodeView(SymSeq):
+            def __call__(self, data=False): return SymSeq(nn, lambda t: Sym(NODE(lift(t))), SInt, "nodes")
+
+        class GG:
+            source, sink = g.source, g.sink
+            @property
+            def edges(self): return EdgeView(g.n, lambda t: (Sym(g.EU(lift(t))), Sym(g.EV(lift(t)))), STuple(SInt, SInt), "edges")
+            @property
+            def nodes(self): return NodeView(nn, lambda t: Sym(NODE(lift(t))), SInt, "nodes")
+            def successors(self, a): return SymSeq(OUTDEG(lift(a)), lambda t: Sym(SUCC(lift(a), lift(t))), SInt, "successors")
+            def predecessors(self, a): return SymSeq(INDEG(lift(a)), lambda t: Sym(PRED(lift(a), lift(t))), SInt, "predecessors")
+            def number_of_nodes(self): return Sym(nn)
+
+        class UBMap:
+            def __getitem__(self, key): return Sym(UB(lift(key[0]), lift(key[1])))
+
+        class Me(Tracked):
+            pass
+        me = Me()
+        sol = Solver({"edge": (X, 3), "distance": (D, 2), "selected_edge": (Y, 3)})
+        sol.graph, sol.basic_pred = g, (lambda a, b: g.EDGE(a, b))
+        cache = {}
+
+        def recognise(indexes, name_prefix):
+            if isinstance(indexes, LazyProduct):
+                if id(indexes) in cache:
+                    return cache[id(indexes)]
+                a0, b0 = c.fresh_const("arbitrary_layer", INT), c.fresh_const("arbitrary_position", INT)
+                it1 = indexes.it1
+                if not (isinstance(it1, SymRange) and c._valid(lift(it1.length()) == k)):
+                    raise Unsupported("product index list: outer iterable is not range(k)")
+                c.assume(z3.And(a0 >= 0, a0 < k))
+                x1 = it1.at(a0)
+                it2 = indexes.it2fn(x1)
+                n2 = lift(it2.length())
+                c.assume(z3.And(b0 >= 0, b0 < n2))
+                key = indexes.fn(x1)(it2.at(b0))
+                if len(key) == 3 and c._valid(z3.And(n2 == g.n, lift(key[0]) == g.EU(b0), lift(key[1]) == g.EV(b0), lift(key[2]) == a0)):
+                    r = IdxSet("edge_indexes", edge_pred, 3)
+                elif len(key) == 2 and c._valid(z3.And(n2 == nn, lift(key[0]) == NODE(b0), lift(key[1]) == a0)):
+                    r = IdxSet("vertex_indexes", vert_pred, 2)
+                else:
+                    raise Unsupported("product index list not recognised")
+                r.source = indexes
+                cache[id(indexes)] = r
+                return r
+            return indexes
+        orig_add = sol.add_variables
+        sol.add_variables = lambda indexes, name_prefix="", lb=0, ub=1, var_type="integer": orig_add(recognise(indexes, name_prefix), name_prefix=name_prefix, lb=lb, ub=ub, var_type=var_type)
+
+        def linked_sum(it):
+            r = Solver.quicksum(sol, it)
+            bs = c.sums[-1]
+            tj = z3.Int(c.name("tj"))
+            t = bs.t(tj)
+            cands = []
+            if z3.is_app(t) and t.decl().eq(X):
+                a, b, i = t.arg(0), t.arg(1), t.arg(2)
+                cands += [(st["OUT"], (a, i), lambda q_: X(a, SUCC(a, q_), i), OUTDEG(a), "flow-out-of-the-node"), (st["IN"], (b, i), lambda q_: X(PRED(b, q_), b, i), INDEG(b), "flow-into-the-node")]
+            elif z3.is_app(t) and t.decl().eq(Y):
+                a, b, i = t.arg(0), t.arg(1), t.arg(2)
+                cands += [(st["INY"], (b, i), lambda q_: Y(PRED(b, q_), b, i), INDEG(b), "selected-edges-into-the-node")]
+            elif z3.is_app(t) and t.decl().eq(UB):
+                b = t.arg(1)
+                cands += [(st["UBS"], (b,), lambda q_: UB(PRED(b, q_), b), INDEG(b), "upper-bounds-of-the-edges-into-the-node")]
+            for S, args, term, n, label in cands:
+                if c._valid(z3.And(bs.n == n, t == term(tj))):
+                    link_sum(c, "sum-built-by-the-code=" + label, lambda q_: S(*args, q_), lambda q_: z3.Implies(q_ >= 0, S(*args, q_ + 1) == S(*args, q_) + term(q_)), n, prop=P)
+                    return r
+            raise Unsupported("sum over something unexpected: %s" % t)
+        sol.quicksum = linked_sum
+        st["sum_builtin"] = linked_sum
+        st["len_"] = lambda x: Sym(c.fresh_const("len_of_index_list", INT)) if isinstance(x, LazyProduct) else BUILTINS["len"](x)
+        me.solver, me.G, me.k = sol, GG(), Sym(k)
+        me.allow_empty_walks = allow_empty
+        me.edge_upper_bounds = UBMap()
+        me.solve_statistics = {}
+        H0 = lift(sol.store.holds)
+        f(me)
+        H = lift(sol.store.holds)
+        b01 = lambda t: z3.And(0 <= t, t <= 1, z3.IsInt(t))
+        nnr = z3.ToReal(nn)
+        full = z3.And(H0,
+                      z3.ForAll([a_, b_, i_], z3.Implies(edge_pred(a_, b_, i_), z3.And(0 <= X(a_, b_, i_), X(a_, b_, i_) <= UB(a_, b_), z3.IsInt(X(a_, b_, i_)), b01(Y(a_, b_, i_))))),
+                      z3.ForAll([a_, i_], z3.Implies(vert_pred(a_, i_), z3.And(0 <= D(a_, i_), D(a_, i_) <= nnr, z3.IsInt(D(a_, i_))))),
+                      all_i(k, r17a), all_i(k, lambda i: nodes_upto(nn, lambda v_: z3.Implies(inner(v_), r17b(v_, i)))),
+                      all_i(k, lambda i: edges_upto(g.n, lambda a, b: r21(a, b, i))),
+                      all_i(k, lambda i: nodes_upto(nn, lambda v_: z3.Implies(notsrc(v_), r22(v_, i)))),
+                      all_i(k, r18a), all_i(k, lambda i: edges_upto(g.n, lambda a, b: r19c(a, b, i))))
+        c.prove("post:columns:multiplicity-x(e,i)-integer-in-[0,edge_upper_bound(e)],-selected-y(e,i)-0/1,-distance-d(v,i)-integer-in-[0,|V|]",
+                z3.BoolVal(set(sol.created) == {"edge", "distance", "selected_edge"} and all(r["var_type"] == "integer" for r in sol.created.values())), prop=P)
+        c.prove("post:SOUND-each-layer:-one-(at-most-one)-unit-leaves-the-source,-conservation-at-inner-nodes,-every-entered-node-has-exactly-one-selected-used-in-edge,-distances-start-at-1-and-increase-along-selected-edges",
+                z3.Implies(H, full), prop=P)
+        c.prove("post:COMPLETE-nothing-else-is-excluded", z3.Implies(full, H), prop=P)
+
+    def concrete(inst):
+        def hc(c, f):
+            E, k, ub, s0, t0 = [tuple(e) for e in inst["edges"]], inst["k"], inst.get("ub", {}), inst["source"], inst["sink"]
+            nodes = []
+            for e in E:
+                for a in e:
+                    if a not in nodes:
+                        nodes.append(a)
+            node_list = list(nodes)
+
+            class View(list):
+                def __call__(self, data=False): return list(self)
+
+            class GG:
+                source, sink = s0, t0
+                edges, nodes = View(E), View(node_list)
+                def successors(self, a): return [b for (x, b) in E if x == a]
+                def predecessors(self, a): return [x for (x, b) in E if b == a]
+                def number_of_nodes(self): return len(node_list)
+
+            class Me(Tracked):
+                pass
+            me = Me()
+            sol = Solver({"edge": (X, 3), "distance": (D, 2), "selected_edge": (Y, 3)})
+            me.solver, me.G, me.k = sol, GG(), k
+            me.allow_empty_walks = allow_empty
+            me.edge_upper_bounds = {e: ub.get(e, 1) for e in E}
+            me.solve_statistics = {}
+            H0 = lift(sol.store.holds)
+            f(me)
+            H = lift(sol.store.holds)
+            S = lambda ts: sum(ts, z3.RealVal(0))
+            b01 = lambda t: z3.And(0 <= t, t <= 1, z3.IsInt(t))
+            n = len(node_list)
+            rows = []
+            for i in range(k):
+                for (a, b) in E:
+                    rows += [z3.And(0 <= X(a, b, i), X(a, b, i) <= z3.RealVal(ub.get((a, b), 1)), z3.IsInt(X(a, b, i))), b01(Y(a, b, i)), X(a, b, i) >= Y(a, b, i),
+                             D(b, i) >= D(a, i) + 1 - z3.RealVal(n + 1) * (1 - Y(a, b, i))]
+                for v in node_list:
+                    rows.append(z3.And(0 <= D(v, i), D(v, i) <= n, z3.IsInt(D(v, i))))
+                    ins, outs = [x for (x, b) in E if b == v], [b for (x, b) in E if x == v]
+                    if v not in (s0, t0):
+                        rows.append(S([X(x, v, i) for x in ins]) - S([X(v, b, i) for b in outs]) == 0)
+                    if v != s0:
+                        rows += [S([X(x, v, i) for x in ins]) <= z3.RealVal(sum(ub.get((x, v), 1) for x in ins)) * S([Y(x, v, i) for x in ins]), S([Y(x, v, i) for x in ins]) <= 1]
+                out_s = S([X(s0, b, i) for (x, b) in E if x == s0])
+                rows += [out_s <= 1 if allow_empty else out_s == 1, D(s0, i) == 1]
+            full = z3.And(H0, *rows)
+            c.prove("instance:SOUND-the-rows-of-the-walk-formulation-hold-in-every-admitted-assignment", z3.Implies(H, full), prop=P)
+            c.prove("instance:COMPLETE-nothing-else-is-excluded", z3.Implies(full, H), prop=P)
+        return hc
+
+    def instances():
+        return [(lab, concrete(i)) for lab, i in (
+            ("cycle-with-entry-and-exit,k=1", dict(edges=[(0, 1), (1, 2), (2, 1), (2, 3)], k=1, source=0, sink=3, ub={(1, 2): 3, (2, 1): 3})),
+            ("two-cycles-sharing-a-node,k=2", dict(edges=[(0, 1), (1, 2), (2, 1), (1, 3), (3, 1), (1, 4)], k=2, source=0, sink=4, ub={(1, 2): 2, (2, 1): 2, (1, 3): 3, (3, 1): 3})),
+            ("self-loop,k=1", dict(edges=[(0, 1), (1, 1), (1, 2)], k=1, source=0, sink=2, ub={(1, 1): 4})))]
+
+    fresh = lambda old: Sym(z3.Bool(core.ctx().name("H")))
+    mod = [(("self", "solver", "store", "holds"), fresh)]
+    keep = ("i", "v", "u", "incoming_flow_v", "incoming_selected_v", "M_v")
+    loops = {}
+    for o in range(10):
+        nested = o in (2, 4, 6, 9)
+        loops[o] = dict(inv=invs[o], prop=P, modifies=mod, on_entry=snap("H%d_" % o, ("i",) if nested else ()), keep=keep)
+
+    def sum_builtin(it, start=0):
+        if isinstance(it, (list, tuple)) or _is_concrete(it):
+            return Solver.quicksum(None, it)
+        return st["sum_builtin"](it)
+    return Unit("flowpaths/abstractwalkmodeldigraph.py", "AbstractWalkModelDiGraph._encode_walks", h,
+                globs=dict(utils=UtilsStub, sum=sum_builtin, len=lambda x: (st["len_"](x) if isinstance(x, LazyProduct) else BUILTINS["len"](x))), loops=loops, props=["C01", "C14"],
+                name="flowpaths/abstractwalkmodeldigraph.py:AbstractWalkModelDiGraph._encode_walks[allow_empty_walks=%s]" % allow_empty, callee_contracts=[A1C], instances=instances,
+                assumptions=[A3, "A2 networkx: successors / predecessors enumerate the out- / in-neighbours; source and sink are nodes; edge endpoints are nodes",
+                             "LM (not proved here): an assignment satisfying these rows is, per layer, the multiplicity vector of ONE closed-under-connectivity source-to-sink walk "
+                             "(arXiv 2209.00042: the selected edges form an in-tree spanning the used nodes); the reconstruction's precondition `balanced and connected` rests on it; the bounded part checks the returned walks"])
+
+
 def all_units():
-    return dag_units() + cyc_units() + [u_subset_constraints()] + [u_mingenset(w, m_) for w in (int, float) for m_ in (False, True)] + [u_symmetry_breaking()] + [u_min_error_flow(int), u_min_error_flow(float)] + [u_encode_paths(False), u_encode_paths(True)] + \
+    return dag_units() + cyc_units() + [u_subset_constraints()] + [u_encode_walks(False), u_encode_walks(True)] + [u_mingenset(w, m_) for w in (int, float) for m_ in (False, True)] + [u_symmetry_breaking()] + [u_min_error_flow(int), u_min_error_flow(float)] + [u_encode_paths(False), u_encode_paths(True)] + \
         [u_cover("flowpaths/kpathcover.py", "kPathCover._encode_path_cover", "subpath_constraints"), u_cover("flowpaths/kpathcovercycles.py", "kPathCoverCycles._encode_walk_cover", "subset_constraints")]
